@@ -30,12 +30,14 @@ def acq_entry(shape, api, mode, blocking, style, env, keystyle="owned", release=
         L.append("w().wait_ok_mask.set(%s);" % shape.nested_owned_mask)
     if shape.kind == "retry" or shape.name.startswith("n_rt"):
         L.append("w().check_hold_wait.set(true);")
-    if is_pois(shape) and env == "q":
+    if is_pois(shape):
         # poison is sticky: the wrapper may have been poisoned by an earlier panic
         L.append("if %s && any_bool(T_MISC | 5) {" % oracle_try(shape, "w"))
+        L.append("\tw().adversarial.set(false);")
         L.append("\tlet r0 = catch_unwind(AssertUnwindSafe(|| { let g = match coll.lock(key()) { Ok(g) => g, Err(e) => e.into_inner() }; eng::inject_panic(); drop(g); }));")
         L.append("\tcore::mem::forget(r0);")
         L.append("\tvcheck!(coll.is_poisoned() && !w().held_any(), M_POISON_MODEL);")
+        L.append("\tw().adversarial.set(%s);" % ("true" if env == "a" else "false"))
         L.append("}")
     L.append("let snap0 = w().snapshot();")
     L.append("let b0 = w().blocking_ops.get();")
